@@ -21,23 +21,27 @@ def pcInv (s : State) : Prop :=
   | .ipRestored | .aRestored => s.writer = true ∧ s.own = none ∧ s.slot = good (s.done + 1)
   | .gAlloc => s.writer = false ∧ s.slot = good s.done ∧ s.own = some ⟨.rw, 0, false⟩
   | .gCopied | .gAdjusted => s.writer = false ∧ s.slot = good s.done ∧ s.own = some ⟨.rw, s.done + 1, true⟩
+  -- after the assembling thread died: nothing is owned or locked; unless the lock is poisoned the slot still holds the last committed state
+  | .dead => s.writer = false ∧ s.own = none ∧ (s.poisoned = false → s.slot = good s.done) ∧
+      (s.slot = none ∨ s.slot = good s.done ∨ s.slot = good (s.done + 1))
 
 structure Inv (s : State) : Prop where
   excl : 0 < s.readers → s.writer = false
   guardsNeedExecutor : 0 < s.readers → 0 < s.executors
   atPc : pcInv s
+  poison : s.poisoned = true → s.pc = .dead
 
 theorem inv_init (e : Nat) : Inv (init e) := by
-  refine ⟨by simp [init], by simp [init], ?_⟩
+  refine ⟨by simp [init], by simp [init], ?_, by simp [init]⟩
   simp [pcInv, init, good]
 
 macro "conc_fin" : tactic => `(tactic|
-  (refine ⟨?_, ?_, ?_⟩ <;> (try simp_all [pcInv, good]) <;> (try omega)))
+  (refine ⟨?_, ?_, ?_, ?_⟩ <;> (try simp_all [pcInv, good]) <;> (try omega)))
 
 theorem inv_step (s s' : State) (a : Act) (h : Inv s) (hs : step s a = some s') : Inv s' := by
-  obtain ⟨hex, hge, hpc⟩ := h
-  obtain ⟨pc, writer, readers, slot, own, done, executors⟩ := s
-  simp only at hex hge
+  obtain ⟨hex, hge, hpc, hpo⟩ := h
+  obtain ⟨pc, writer, readers, slot, own, done, executors, poisoned⟩ := s
+  simp only at hex hge hpo
   cases a <;> cases pc <;> simp [step, canWrite, canRead, setProt] at hs <;> simp only [pcInv, good] at hpc <;>
     first
     | (obtain ⟨hc, rfl⟩ := hs; conc_fin)
